@@ -274,4 +274,12 @@ Definition judge (op : bytes) (args : list val) (out : val) : verdict :=
     | [VInt s] => if off_ok s then judge_eq (VTup [VInt (- s); VInt s]) out else JSkip
     | _ => JSkip end
   else if op_is op "z.prov" then z_1 (fun u _ off => exp_prov (u + off)) args out
+  else if op_is op "z.peast" then
+    match args with
+    | [VInt s] => if in_i32 s then judge_eq (if off_ok s then VInt s else VPanic) out else JSkip
+    | _ => JSkip end
+  else if op_is op "z.pwest" then
+    match args with
+    | [VInt s] => if in_i32 s then judge_eq (if off_ok s then VInt (- s) else VPanic) out else JSkip
+    | _ => JSkip end
   else JSkip.
